@@ -1710,12 +1710,12 @@ def plan_c19(tier, seed):
             native.append((uid, "debug_fmt", [list(rv.to_bytes(nb, "little"))]))
     # controls: the reference value of one field is taken from a shifted range (affects both the
     # symbolic comparison and the native text comparison)
-    L0 = us[1].meta["layout"]
+    L0 = us[3].meta["layout"]
     hc = h_c19(L0)
     hc.name, hc.expect, hc.family = "ctl_debug", "control", "control"
     f1 = L0.fields[1]
     hc.body = hc.body.replace(f"let w_{f1.name}: u128 = spec::get(r128, {H.rng(f1.ranges)}, 0u32);", f"let w_{f1.name}: u128 = spec::get(r128, {H.rng([(f1.ranges[0][0] + 1, f1.ranges[0][1])])}, 0u32);", 1)
-    us[1].harnesses.append(hc)
+    us[3].harnesses.append(hc)
     L2 = us[0].meta["layout"]
     hc2 = h_c19(L2)
     hc2.name, hc2.expect, hc2.family = "ctl_debug_value", "control", "control"
